@@ -12,6 +12,8 @@ import (
 	"github.com/ipfs/go-datastore"
 	"github.com/ipfs/go-graphsync"
 	ipld "github.com/ipld/go-ipld-prime"
+	"github.com/ipld/go-ipld-prime/datamodel"
+	cidlink "github.com/ipld/go-ipld-prime/linking/cid"
 	"github.com/libp2p/go-libp2p/core/peer"
 
 	datatransfer "github.com/filecoin-project/go-data-transfer/v2"
@@ -230,8 +232,8 @@ func TestC09Close(t *testing.T) {
 	vf.Run(t, "C09Close", vf.Opts{Bubble: true, DefaultN: 48}, func(c *vf.Case) {
 		r := c.Rng
 		rl := allRoles[c.Index%4]
-		gsState := (c.Index / 4) % 6    // 0 no transport channel, 1 tracked never opened, 2 open, 3 cancelled by an earlier close, 4 requester cancelled, 5 completed
-		closeKind := (c.Index / 24) % 2 // 0 user close, 1 close with error
+		gsState := (c.Index / 4) % 7    // 0 no transport channel, 1 tracked never opened, 2 open, 3 cancelled by an earlier close, 4 requester cancelled, 5 completed, 6 open with a non-terminal graphsync error already reported
+		closeKind := (c.Index / 28) % 2 // 0 user close, 1 close with error
 		sendMode := r.Intn(3)           // 0 ok, 1 fails at once, 2 fails after a delay
 		peers := gen.Peers(r, 2)
 		self, other := peers[0], peers[1]
@@ -297,6 +299,18 @@ func TestC09Close(t *testing.T) {
 		case 4:
 			if !weRequest && gsState >= 2 {
 				f.gs.RequestorCancelledListener(other, doubles.Req(inID, nil))
+			}
+		case 6:
+			if weRequest {
+				if id, ok := f.lastRequest(); ok {
+					if f.gs.ReportError(id, graphsync.RemoteMissingBlockErr{Link: cidlink.Link{Cid: dummyCid}, Path: datamodel.ParsePath("a/b")}) {
+						c.Count("nonterminal_graphsync_errors", 1)
+					} else {
+						c.Note("ReportError refused for %v", id)
+					}
+				} else {
+					c.Note("gsState 6: no request recorded (%d calls)", f.gs.Len())
+				}
 			}
 		case 5:
 			if weRequest {
